@@ -247,6 +247,26 @@ func runThorough(c *Ctx) {
 			survivors = append(survivors, r.name)
 		}
 	}
+	// development aid: the variants no rule fires on, written out as files so that the existing test
+	// suite can be run on them (tools/survivors.sh); never used by the registered commands
+	if dir := os.Getenv("GTVERIF_DUMP_SURVIVORS"); dir != "" {
+		k := 0
+		for i, r := range mres {
+			if r.verdict != "survived" {
+				continue
+			}
+			k++
+			d := filepath.Join(dir, fmt.Sprintf("%s-%03d", c.Prop, k))
+			rel, rerr := filepath.Rel(repoDir, muts[i].file)
+			if rerr != nil || strings.HasPrefix(rel, "..") {
+				continue
+			}
+			if err := os.MkdirAll(filepath.Join(d, filepath.Dir(rel)), 0o755); err == nil {
+				_ = os.WriteFile(filepath.Join(d, rel), []byte(muts[i].content), 0o644)
+				_ = os.WriteFile(filepath.Join(d, "DESC"), []byte(muts[i].desc+"\n"+rel+"\n"), 0o644)
+			}
+		}
+	}
 	c.Extra["mutants_generated"] = len(mres)
 	c.Extra["mutants_killed"] = cnt["killed"]
 	c.Extra["mutants_survived"] = cnt["survived"]
